@@ -1,6 +1,7 @@
 """C16 Evaluation is colour-symmetric, bounded and a proper blend."""
 import os, json
 import vlib, games, searches
+import nodes
 
 
 def main():
@@ -83,6 +84,8 @@ def main():
             chk.drift.append({"what": d["what"], "detail": d["detail"], "source": ef})
     if tot["over24"] == 0:
         raise vlib.ToolError("no position with game phase above 24: vacuous")
+    # node level (hook H6): every static evaluation taken inside recorded searches stays out of the mate range
+    nodes.standard(chk, ("C16",), scale=0.25)
     chk.cov.update({
         "traces_validated_against_impl": len(files),
         "evaluations": tot["events"], "distinct_nontrivial": tot["over24"] // 2,
